@@ -194,7 +194,8 @@ def work(a):
                 V("sqfs2tar-differs:" + re.sub(r"b'.*?'|b\".*?\"|\d+", "_", d[0])[:50], "; ".join(d[:4]), 2)
                 return res
             rc, err, snap = gnu_tar_extract(os.path.join(s, "tar1.tar"), os.path.join(s, "x"))
-            if rc != 0 and b"xattr" not in err and b"Operation not" not in err:
+            # what the host file system cannot hold (xattr namespaces, names / link targets beyond its limits) says nothing about the archive
+            if rc != 0 and b"xattr" not in err and b"Operation not" not in err and b"File name too long" not in err:
                 V("sqfs2tar-output-rejected-by-gnu-tar", err[-300:].decode(errors="replace"), 2)
                 return res
             if rc == 0:
